@@ -125,16 +125,17 @@ def scenarios(tier: str) -> list[Scenario]:
             [op('validate', 'm'), op('estimate', 'm'), op('extremove', 'm_val_est_1.html'), op('recycle', 'm_val_est_1')],
             [set(), {'m_validation.pickle', 'm_val_est_1.html', 'm_val_est_2.pickle', 'm_val_est_2~00.pickle'}],
             3, max_env=1))
-        # long random walks over the union of the alphabets
+        # long random walks over the union of the alphabets (no pickle of the model named m~00 here: the glob
+        # m~*.pickle of files_of_type would count it among the pickles of model m, see design-C14.md)
         out.append(Scenario(
             'random walks',
-            [W('html'), W('pickle'), W('tex'), W('F12'), W('html', 'm', 'o2'), W('pickle', 'm~00', 'o3'), W('html', 'm~00', 'o3'),
+            [W('html'), W('pickle'), W('tex'), W('F12'), W('html', 'm', 'o2'), W('pickle', 'm', 'o2'), W('html', 'm~00', 'o3'),
              op('dump', 'tiny'), op('backup', 'm', 'html', 'copy'), op('backup', 'm', 'pickle', 'rename'),
              op('estimate', 'm'), op('recycle', 'm'), op('extremove', 'm.html'), op('extremove', 'm.pickle'),
              op('extremove', 'm~00.pickle'), op('extremove', 'm~01.html'), op('extcreate', 'm~02.html'),
              op('load', 'm.pickle'), op('load', 'm~00.pickle'), op('load', 'm~01.pickle')],
             [set(), {'m.html', 'm~01.html', 'm.pickle', 'm~01.pickle', 'm~03.pickle'}],
-            9, max_env=3, max_index=16, simulate=dict(num=250)))
+            9, max_env=3, max_index=16, simulate=dict(num=1500)))
     return out
 
 
